@@ -273,6 +273,8 @@ class World:
             fault.on_fire = _on_fire
         rctx.monitor = mon
         sr.mon = mon
+        if rctx.hooks.get('fs_yield') is not None:
+            mon.on_lib_event = rctx.hooks['fs_yield']
         root = make_root(rctx, body)
 
         def wrapped_root(b):
@@ -337,12 +339,17 @@ class World:
                 if self.masked_query(kind, r, ans, mans):
                     continue
                 qdivs.append(div('query', where=where, q=kind, path=r, mode=mode,
-                                 real=ans, model=mans, pathclass=self.path_class(sr, r)))
+                                 real=ans, model=mans, pathclass=self.path_class(sr, r),
+                                 diff=self.answer_diff(sr, kind, r, ans, mans)))
                 break
         divs.extend(qdivs)
         if not same_res:
+            cause = None
+            if qdivs:
+                q = qdivs[0]
+                cause = 'query|%s|%s' % (q['q'], q.get('diff') or q.get('pathclass'))
             divs.append(div('result', real=_res(sr.rres), model=_res(sr.mres),
-                            real_tb=getattr(sr, 'real_tb', None)))
+                            real_tb=getattr(sr, 'real_tb', None), cause=cause))
         # client-side monitor findings
         for it in rctx.issues:
             divs.append(div('issue', **it))
@@ -392,6 +399,34 @@ class World:
             return a
         return strip(ans) == strip(mans)
 
+    def answer_diff(self, sr, kind, r, ans, mans):
+        """for listing-type answers: which entry differs and what kind of path it is"""
+        try:
+            if ans[0] != 'ok' or mans[0] != 'ok':
+                return None
+            if kind == 'list_dir':
+                a = {(r + '/' + n) if r else n for n in ans[1]}
+                b = {(r + '/' + n) if r else n for n in mans[1]}
+            elif kind in ('walk', 'walk_bu'):
+                def paths(v):
+                    out = set()
+                    for d, sd, sf in v:
+                        out.add(d)
+                        for n in sd + sf:
+                            out.add((d + '/' + n) if d else n)
+                    return out
+                a, b = paths(ans[1]), paths(mans[1])
+            else:
+                return None
+            extra, missing = sorted(a - b), sorted(b - a)
+            if extra:
+                return 'extra:' + self.path_class(sr, extra[0])
+            if missing:
+                return 'missing:' + self.path_class(sr, missing[0])
+        except Exception:
+            return None
+        return None
+
     def path_class(self, sr, r):
         """mechanism-level description of a path for signatures"""
         p = self.ap(r)
@@ -411,6 +446,8 @@ class World:
         if p == self.cache:
             tags.append('cache')
         if sr.mb is not None:
+            if p in sr.mb.error_removed:
+                tags.append('error-created-dir')
             if p in sr.mb.claimed_files:
                 tags.append('target')
             if any(t.startswith(p + '/') for t in sr.mb.claimed_files):
